@@ -2,6 +2,7 @@ package main
 
 import (
 	"fmt"
+	"go/ast"
 	"go/token"
 	"go/types"
 	"sort"
@@ -23,6 +24,7 @@ func init() {
 	ruleText["R11.2"] = "in resizeFrame the slice stored into interp.frame.data is a fresh slice that is the destination of a copy from the old interp.frame.data, its length is the number of universe types, and the zero-initialising loop covers only universe.types[oldLen:]"
 	ruleText["R11.3"] = "every store into Interpreter.scopes[k] is guarded by the absence test of the same key"
 	ruleText["R11.5"] = "the frame captured by a closure value (the ancestor of the frames its calls create) is, on every path, the result of (*frame).clone taken when the closure value is created - also when the defining frame is the global frame"
+	ruleText["R11.6"] = "in (*Interpreter).gta every &symbol{kind: varSym, global: true} literal takes its index from a direct scope.add call, and no assignment targets the node field of a symbol (function symbols are installed as fresh literals)"
 	ruleText["R11.4"] = "each exported method of *Interpreter named Eval*/Compile*/Execute*/REPL reaches CompileAST, importSrc or Execute on the static call graph; gta, gtaRetry, cfg and genRun are called only from CompileAST, importSrc, Execute and the compile passes themselves"
 }
 
@@ -103,6 +105,7 @@ func runC11(c *Config, r *Report) {
 	c11R3(ic, r)
 	c11R4(ic, r)
 	closureFrameCloned(ic, r, "R11.5")
+	c11R6(ic, r)
 }
 
 func c11R2(ic *IC, r *Report) {
@@ -446,4 +449,84 @@ func closureFrameCloned(ic *IC, r *Report, rule string) {
 	if n == 0 {
 		r.Errorf("%s: no closure-value constructor capturing a cloned frame found (getFunc expected)", rule)
 	}
+}
+
+// c11R6: the global pass gives every (re)definition a symbol and a slot of its own. A
+// redefined function must not change the symbol that code compiled earlier resolved ("replaces
+// only that function"), and a global defined again must not take over the slot functions
+// compiled earlier read. In (*Interpreter).gta: (a) every symbol of a variable is a fresh
+// &symbol{} whose index is a direct scope.add call; (b) no statement re-points the node of a
+// symbol that was looked up in a scope.
+func c11R6(ic *IC, r *Report) {
+	fi := ic.fn(r, "Interpreter.gta")
+	if fi == nil {
+		return
+	}
+	symT, _ := ic.Pk.Types.Scope().Lookup("symbol").(*types.TypeName)
+	nodeFld := ic.field("symbol", "node")
+	if symT == nil || nodeFld == nil {
+		r.Errorf("anchor not resolved: type symbol / field symbol.node")
+		return
+	}
+	constName := func(e ast.Expr) string {
+		if id, ok := unparen(e).(*ast.Ident); ok {
+			if c, ok := ic.Info.Uses[id].(*types.Const); ok {
+				return c.Name()
+			}
+		}
+		return ""
+	}
+	nVar, nFunc := 0, 0
+	ast.Inspect(fi.Decl.Body, func(n ast.Node) bool {
+		switch x := n.(type) {
+		case *ast.CompositeLit:
+			if t := ic.Info.TypeOf(x); t == nil || !types.Identical(t, symT.Type()) {
+				return true
+			}
+			kind, global := "", false
+			var index ast.Expr
+			for _, e := range x.Elts {
+				kv, ok := e.(*ast.KeyValueExpr)
+				if !ok {
+					continue
+				}
+				switch types.ExprString(kv.Key) {
+				case "kind":
+					kind = constName(kv.Value)
+				case "global":
+					global = types.ExprString(kv.Value) == "true"
+				case "index":
+					index = kv.Value
+				}
+			}
+			switch {
+			case kind == "varSym" && global:
+				nVar++
+				ok := false
+				if c, isCall := unparen(index).(*ast.CallExpr); index != nil && isCall && isCallTo(ic.Info, c, "interp.scope.add") {
+					ok = true
+				}
+				got := "no index"
+				if index != nil {
+					got = types.ExprString(index)
+				}
+				r.Check(ok, "R11.6", fmt.Sprintf("gta/global-var-symbol#%d/fresh-slot", nVar), ic.pos(x.Pos()), "the global gets a slot of its own from scope.add",
+					"the symbol of a package-level variable defined here takes its frame index from "+got+" instead of a direct scope.add call: a definition evaluated later can take over the slot of a variable that functions compiled earlier still read, so piecewise evaluation differs from evaluating the program whole")
+			case kind == "funcSym":
+				nFunc++
+			}
+		case *ast.AssignStmt:
+			for _, l := range x.Lhs {
+				if selField(ic.Info, l) == nodeFld {
+					r.Fail("R11.6", "gta/symbol-node-repointed", ic.pos(x.Pos()), "gta assigns the node of an existing symbol ("+types.ExprString(l)+"): callers compiled before a redefinition resolve the function through that symbol when their closures are generated, so redefining a function also changes functions that were not redefined")
+				}
+			}
+		}
+		return true
+	})
+	if nVar < 2 || nFunc < 1 {
+		r.Errorf("R11.6: %d global variable symbols and %d function symbols created in gta (2 and 1 confirmed by reading)", nVar, nFunc)
+		return
+	}
+	r.Pass("R11.6", "gta/symbol-node-repointed/none", ic.pos(fi.Decl.Pos()), fmt.Sprintf("%d function symbol literal(s); no store to symbol.node outside a literal", nFunc))
 }
